@@ -8,6 +8,7 @@ import (
 	"path/filepath"
 	"strconv"
 	"strings"
+	"time"
 
 	bbolt "go.etcd.io/bbolt"
 
@@ -52,6 +53,7 @@ func (s *c15ReopenSys) Apply(op engine.Op) (string, *engine.Violation) {
 
 func runC15Reopen(c *engine.Ctx) {
 	kinds := []drv.Kind{drv.Bolt, drv.MultiDir, drv.SingleDir, drv.MultiMem, drv.SingleMem}
+	c.SpecBudget = c.Budget() / time.Duration(3*len(kinds))
 	for _, k := range kinds {
 		cfg := drv.Config{Kind: k}
 		u := &c02Universe{buckets: []string{"aaa", "bbb"}, keys: []string{"k", "d/x"}, bodies: []string{"A", "BB"}}
@@ -114,7 +116,7 @@ func (o crashOp) String() string {
 }
 
 func crashAlphabet(single bool) []crashOp {
-	big1 := strings.Repeat("0123456789abcdef", 2560)       // 40 KiB
+	big1 := strings.Repeat("0123456789abcdef", 2560)         // 40 KiB
 	big2 := strings.Repeat("fedcba9876543210", 2560)[:40000] // different content and size
 	ops := []crashOp{
 		{kind: "put", b: "aaa", k: "k", body: "A"},
@@ -201,12 +203,12 @@ func matchStore(w *drv.World, m *model.Store, universeBuckets []string) (diff st
 }
 
 type crashJobResult struct {
-	World      string             `json:"world"`
-	Histories  int                `json:"histories"`
-	Images     int                `json:"images"`
-	InFlight   int                `json:"images_inside_an_operation"`
+	World      string              `json:"world"`
+	Histories  int                 `json:"histories"`
+	Images     int                 `json:"images"`
+	InFlight   int                 `json:"images_inside_an_operation"`
 	Violations []*engine.Violation `json:"violations,omitempty"`
-	Sample     []string           `json:"sample,omitempty"`
+	Sample     []string            `json:"sample,omitempty"`
 }
 
 func touched(o crashOp) []string {
